@@ -494,3 +494,44 @@ Definition run_merge (inp : list Z) : list Z :=
               end
   | [] => bad_input
   end.
+
+(* ---- components of C13: playback timing, exact arithmetic ---- *)
+Require Import Mido.Model.Tempo.
+From Coq Require Import QArith.
+Open Scope Z_scope.
+Fixpoint in_pm (n : nat) (l : list Z) : list pmsg * list Z :=
+  match n, l with
+  | S k, dt :: t :: mt :: r => let '(ms, r') := in_pm k r in
+                               ({| p_dt := dt; p_tempo := if t <? 0 then None else Some t; p_meta := negb (mt =? 0) |} :: ms, r')
+  | _, _ => ([], l)
+  end.
+(* [n; (dt, tempo|-1, meta)*] -> numerators of the yielded deltas (over 10^6 * ticks_per_beat), then the numerator of length *)
+Definition run_iter_num (inp : list Z) : list Z :=
+  match inp with
+  | n :: r => let '(ms, _) := in_pm (Z.to_nat n) r in out_list (iter_num DEFAULT_TEMPO ms) ++ [length_num ms]
+  | [] => bad_input
+  end.
+(* play on a scripted clock; all times are integers in units of 2^-20 s *)
+Definition qof (z : Z) : Q := z # 1048576.
+Definition zof (q : Q) : Z := Qnum (Qred (q * (1048576 # 1))).
+Fixpoint in_pt (n : nat) (l : list Z) : list ptick * list Z :=
+  match n, l with
+  | S k, d :: mt :: r => let '(ms, r') := in_pt k r in ({| q_delta := qof d; q_meta := negb (mt =? 0) |} :: ms, r')
+  | _, _ => ([], l)
+  end.
+Definition run_play (inp : list Z) : list Z :=
+  match inp with
+  | mm :: start :: n :: r =>
+      let '(ms, r1) := in_pt (Z.to_nat n) r in
+      match in_list r1 with
+      | Some (eps, r2) =>
+          match in_list r2 with
+          | Some (holds, []) =>
+              let ys := play (negb (mm =? 0)) (qof start) (qof start) 0 0 ms (map qof eps) (map qof holds) in
+              zlen ys :: flat_map (fun y => [Z.of_nat (fst y); zof (snd y)]) ys
+          | _ => bad_input
+          end
+      | None => bad_input
+      end
+  | _ => bad_input
+  end.
